@@ -8,6 +8,7 @@ pub mod c04;
 pub mod rules;
 pub mod c07;
 pub mod c08;
+pub mod c09;
 pub mod c10;
 pub mod c11;
 pub mod c12;
@@ -16,7 +17,7 @@ pub mod c16;
 pub mod c17;
 
 pub fn ids() -> Vec<&'static str> {
-    vec!["C01", "C02", "C03", "C04", "C07", "C08", "C10", "C11", "C12", "C15", "C16", "C17"]
+    vec!["C01", "C02", "C03", "C04", "C07", "C08", "C09", "C10", "C11", "C12", "C15", "C16", "C17"]
 }
 
 pub fn get(id: &str, ctx: &Ctx) -> Option<PropertyDef> {
@@ -27,6 +28,7 @@ pub fn get(id: &str, ctx: &Ctx) -> Option<PropertyDef> {
         "C04" => c04::def(ctx),
         "C07" => c07::def(ctx),
         "C08" => c08::def(ctx),
+        "C09" => c09::def(ctx),
         "C10" => c10::def(ctx),
         "C11" => c11::def(ctx),
         "C12" => c12::def(ctx),
